@@ -91,6 +91,7 @@ func checkC02(p *Program, r *Report) {
 	}
 
 	checkRangeRouting(p, r)
+	checkVLenWidth(p, r, "C02.vlen-width")
 }
 
 // checkRangeRouting: index.RangeGet -> SlimTrie.RangeGet; RangeGet and Search
